@@ -24,7 +24,7 @@ NewSelect == [kind |-> "select", distinct |-> NoneV, selects |-> <<>>, from |-> 
               limit |-> NoneV, offset |-> NoneV, lock |-> NoneV, window |-> NoneV, with |-> NoneV, hints |-> <<>>, sample |-> NoneV]
 NewInsert == [kind |-> "insert", replace |-> FALSE, table |-> NoneV, ins |-> InitStmt, on_conflict |-> NoneV,
               returning |-> NoneV, with |-> NoneV]
-NewUpdate == [kind |-> "update", table |-> NoneV, from |-> <<>>, values |-> <<>>, where |-> EmptyHolder,
+NewUpdate == [kind |-> "update", table |-> NoneV, talias |-> "", from |-> <<>>, values |-> <<>>, where |-> EmptyHolder,
               orders |-> <<>>, limit |-> NoneV, returning |-> NoneV, with |-> NoneV]
 NewDelete == [kind |-> "delete", table |-> NoneV, where |-> EmptyHolder, orders |-> <<>>, limit |-> NoneV,
               returning |-> NoneV, with |-> NoneV]
@@ -105,7 +105,8 @@ ApplyInsert(s, c) ==
     [] OTHER -> [s EXCEPT !.ins = Call(@, c).st]
 
 ApplyUpdate(s, c) ==
-  CASE c.op = "table" -> [s EXCEPT !.table = Some(c.t)]
+  CASE c.op = "table" -> [s EXCEPT !.table = Some(c.t), !.talias = ""]
+    [] c.op = "table_as" -> [s EXCEPT !.table = Some(c.t), !.talias = c.a]          \* UPDATE t AS a
     [] c.op = "from" -> [s EXCEPT !.from = Append(@, [k |-> "table", t |-> c.t])]
     [] c.op = "value" -> [s EXCEPT !.values = Append(@, [c |-> c.col, e |-> c.e])]
     [] c.op = "and_where" -> [s EXCEPT !.where = Apply(@, c.e)]
@@ -346,11 +347,11 @@ RLimit(B, O, l) == IF IsNone(l) THEN "" ELSE " LIMIT " \o RNum(B, O, l.n)
 RUpdate(B, O, s) ==
   LET myJoin == B = "mysql" /\ Len(s.from) > 0 IN
   (IF IsNone(s.with) THEN "" ELSE RWith(B, O, s.with))
-  \o "UPDATE " \o (IF IsNone(s.table) THEN "" ELSE TableName(B, s.table.v))
+  \o "UPDATE " \o (IF IsNone(s.table) THEN "" ELSE TableName(B, s.table.v) \o (IF s.talias # "" THEN " AS " \o Q(B, s.talias) ELSE ""))
   \o Opt1(myJoin, IF myJoin THEN " JOIN " \o RTableRef(B, O, s.from[1]) \o RHolder(B, O, "ON", s.where) ELSE "")
   \o " SET "
   \o Sep([i \in DOMAIN s.values |->
-        (IF myJoin /\ ~IsNone(s.table) /\ Len(s.table.v) = 1 THEN Q(B, s.table.v[1]) \o "." ELSE "") \o Q(B, s.values[i].c)
+        (IF myJoin /\ ~IsNone(s.table) /\ Len(s.table.v) = 1 /\ s.talias = "" THEN Q(B, s.table.v[1]) \o "." ELSE "") \o Q(B, s.values[i].c)
         \o " = " \o RExpr(B, O, s.values[i].e)])
   \o Opt1(B # "mysql" /\ Len(s.from) > 0, " FROM " \o Sep([i \in DOMAIN s.from |-> RTableRef(B, O, s.from[i])]))
   \o Opt1(~myJoin, RHolder(B, O, "WHERE", s.where))
